@@ -73,7 +73,7 @@ type varsCase struct {
 	Matrix   [][]string          `json:"matrix,omitempty"` // product: rows: key, items...
 }
 
-func yamlQ(s string) string { return "'" + strings.ReplaceAll(s, "'", "''") + "'" }
+func varsYamlQ(s string) string { return "'" + strings.ReplaceAll(s, "'", "''") + "'" }
 
 func shText(d vDef) string {
 	if d.Kind == "envsh" {
@@ -90,11 +90,11 @@ func renderDefs(b *strings.Builder, indent string, key string, defs []vDef) {
 	for _, d := range defs {
 		switch d.Kind {
 		case "lit":
-			fmt.Fprintf(b, "%s  %s: %s\n", indent, d.Name, yamlQ(d.Text))
+			fmt.Fprintf(b, "%s  %s: %s\n", indent, d.Name, varsYamlQ(d.Text))
 		case "sh", "envsh":
-			fmt.Fprintf(b, "%s  %s: {sh: %s}\n", indent, d.Name, yamlQ(shText(d)))
+			fmt.Fprintf(b, "%s  %s: {sh: %s}\n", indent, d.Name, varsYamlQ(shText(d)))
 		case "ref":
-			fmt.Fprintf(b, "%s  %s: {ref: %s}\n", indent, d.Name, yamlQ("."+d.Text))
+			fmt.Fprintf(b, "%s  %s: {ref: %s}\n", indent, d.Name, varsYamlQ("."+d.Text))
 		}
 	}
 }
@@ -119,7 +119,7 @@ func renderVarsFiles(d varsCase) (root, sub string) {
 		}
 		fmt.Fprintf(w, "  %s:\n", t.Name)
 		if t.Dir != "" {
-			fmt.Fprintf(w, "    dir: %s\n", yamlQ(t.Dir))
+			fmt.Fprintf(w, "    dir: %s\n", varsYamlQ(t.Dir))
 		}
 		renderDefs(w, "    ", "vars", t.Vars)
 		renderDefs(w, "    ", "env", t.Env)
@@ -133,7 +133,7 @@ func renderVarsFiles(d varsCase) (root, sub string) {
 				fmt.Fprintf(w, "            %s: [%s]\n", row[0], strings.Join(row[1:], ", "))
 				it = append(it, row[0]+"={{.ITEM."+row[0]+"}}")
 			}
-			fmt.Fprintf(w, "        cmd: %s\n", yamlQ("echo "+strings.Join(it, ",")))
+			fmt.Fprintf(w, "        cmd: %s\n", varsYamlQ("echo "+strings.Join(it, ",")))
 		} else {
 			fmt.Fprintf(w, "    cmds: ['true']\n")
 		}
